@@ -38,7 +38,9 @@ def fam_pairs(rng, n, prefix="pair"):
             while True:
                 # ids are arbitrary uint32 values: mostly small ones, sometimes ones that differ only in
                 # their high bytes (kept below 2^31, TLC's integers are 32 bit)
-                id_ = rng.randint(10, 14) if rng.random() < 0.7 else rng.choice([65536, 65537, 0x00030007, 0x03030007, 0x01000000, 0x7FFFFFFF, 0x00010001])
+                id_ = rng.randint(10, 14) if rng.random() < 0.7 else rng.choice([0, 65536, 65537, 0x00030007, 0x03030007, 0x01000000, 0x7FFFFFFF, 0x00010001])
+                if i == 1 and j == 0:
+                    id_ = 0  # NextId never returns it, an application may pick it
                 dside = rng.choice("HP")
                 if (id_, dside) not in used:
                     used.add((id_, dside))
